@@ -156,3 +156,135 @@ CONTRACT[_SP + 'get_reduced_alphabet_sequence'] = dict(
              'forall(lambda j: result[0][j] == red1(self.SeqObj.seq[j], int(alphabetSize)), 0, self.SeqObj.len)'])
 CONTRACT[CX + 'reduce_alphabet']['returns'] = lambda it, env: (it.fresh_seq('reduced', 'str', 'char'), list(ALPHA.get(int(env['alphabetSize']), [])))
 CONTRACT[_KS + 'get_reducedAlphabetSequence']['returns'] = lambda it, env: (it.fresh_seq('reduced', 'str', 'char'), list(ALPHA.get(int(env['alphabetSize']), [])))
+
+# ----------------------------------------------------------------------------- C11: complexity vectors
+from pyvc.speclib import rsum, cnt, toreal, logb, fdiv, define_over, length as _length
+from .common import SPEC as _CS
+
+
+def plogp(p, A):
+    """p * log_A(p), 0 for p = 0"""
+    return ite(p > 0, lambda: p * logb(p, toreal(A)), Fraction(0))
+
+
+@define_over('wf_spec', 2, ['int', 'int'], 'real')
+def wf_spec(seq, alpha, start, w):
+    """Shannon entropy (base = alphabet size) of the letter composition of the window seq[start:start+w]"""
+    A = _length(alpha)
+    return -rsum(lambda a: plogp(toreal(cnt(lambda j: seq[j] == alpha[a], start, start + w)) / toreal(w), A), 0, A)
+
+
+@define_over('wf_partial', 2, ['int', 'int', 'int'], 'real')
+def wf_partial(seq, alpha, start, w, upto):
+    A = _length(alpha)
+    return rsum(lambda a: plogp(toreal(cnt(lambda j: seq[j] == alpha[a], start, start + w)) / toreal(w), A), 0, upto)
+
+
+def n_windows(N, w, s):
+    """K = floor((N - w) / s) + 1"""
+    return fdiv(N - w, s) + 1
+
+
+SPEC.update(dict(plogp=plogp, wf_spec=wf_spec, wf_partial=wf_partial, n_windows=n_windows))
+
+CONTRACT[CX + 'get_indexed_complexity_vector'] = dict(
+    self=mk_cx, params={'complexity_vector': 'list[real]', 'seq_len': 'int'},
+    requires=['length(complexity_vector) >= 1', 'length(complexity_vector) <= seq_len'],
+    raises=[], modifies=[], returns='rows:int,real',
+    ensures=['length(result[0]) == length(complexity_vector)',
+             'result[0][0] >= 1', 'result[0][length(complexity_vector) - 1] <= seq_len',
+             'forall(lambda i: result[0][i] < result[0][i + 1], 0, length(complexity_vector) - 1)',
+             'seq_eq(result[1], complexity_vector)'])
+
+CONTRACT[CX + 'CWF'] = dict(
+    self=mk_cx, params={'sequence': 'str', 'alphabet': 'list[char]', 'windowSize': 'int', 'stepSize': 'int'},
+    requires=['windowSize >= 1', 'windowSize <= length(sequence)', 'stepSize >= 1', 'length(alphabet) >= 2'],
+    raises=[], modifies=[], returns='list[real]',
+    ensures=['length(result) == n_windows(length(sequence), windowSize, stepSize)',
+             'forall(lambda k: result[k] == wf_spec(sequence, alphabet, k * stepSize, windowSize), 0, length(result))'])
+LOOPS[CX + 'CWF'] = {
+    0: dict(types={'CWF_array': 'list[real]', 'CWF': 'real'}, invariant=[
+        'step == stepSize * length(CWF_array)', 'step >= 0',
+        'implies(length(CWF_array) >= 1, stepSize * (length(CWF_array) - 1) <= length(sequence) - windowSize)',
+        'forall(lambda k: CWF_array[k] == wf_spec(sequence, alphabet, k * stepSize, windowSize), 0, length(CWF_array))'],
+        variant='(length(sequence) - windowSize - step + 1,)'),
+    1: dict(index='a', types={'CWF': 'real'}, invariant=['CWF == wf_partial(sequence, alphabet, step, windowSize, a)']),
+}
+
+CONTRACT[CX + 'LZW'] = dict(
+    self=mk_cx, params={'sequence': 'str', 'alphabet': 'list[char]', 'windowSize': 'int', 'stepSize': 'int'},
+    requires=['windowSize >= 1', 'windowSize <= length(sequence)', 'stepSize >= 1'],
+    raises=[], modifies=[], returns='list[real]',
+    ensures=['length(result) == n_windows(length(sequence), windowSize, stepSize)',
+             'forall(lambda k: And(0 <= result[k], result[k] <= 1), 0, length(result))'])
+LOOPS[CX + 'LZW'] = {
+    0: dict(types={'LZW_array': 'list[real]', 'LZW': 'real', 'w': 'str', 'ngrams': 'aset', 'n': 'int'}, invariant=[
+        'step == stepSize * length(LZW_array)', 'step >= 0',
+        'implies(length(LZW_array) >= 1, stepSize * (length(LZW_array) - 1) <= length(sequence) - windowSize)',
+        'forall(lambda k: And(0 <= LZW_array[k], LZW_array[k] <= 1), 0, length(LZW_array))'],
+        variant='(length(sequence) - windowSize - step + 1,)'),
+    1: dict(index='i', types={'ngrams': 'aset', 'w': 'str'}, invariant=['length(ngrams) <= i', 'length(ngrams) >= 0']),
+}
+
+CONTRACT[CX + 'LC'] = dict(
+    self=mk_cx, params={'sequence': 'str', 'alphabet': 'list[char]', 'windowSize': 'int', 'stepSize': 'int', 'wordSize': ('const', 3)},
+    cases=[dict(params={'wordSize': ('const', k)}) for k in (1, 2, 3, 4, 5, 6)],
+    requires=['windowSize >= 1', 'windowSize <= length(sequence)', 'stepSize >= 1', 'length(alphabet) >= 2'],
+    raises=[], modifies=[], returns='list[real]',
+    ensures=['length(result) == n_windows(length(sequence), windowSize, stepSize)',
+             # v <= number of word positions; that v <= |alphabet|^word (hence LC <= 1) is Lean lemma card_words
+             'forall(lambda k: And(0 <= result[k], result[k] * minv(toreal(length(alphabet)) ** wordSize, toreal(windowSize - 1 + wordSize)) <= maxv(windowSize - wordSize, 0)), 0, length(result))'])
+LOOPS[CX + 'LC'] = {
+    0: dict(types={'LC_array': 'list[real]', 'LC': 'real', 'ngram': 'str', 'ngrams': 'aset', 'i': 'int', 'v': 'int', 'vmax': 'real', 'position': 'int'}, invariant=[
+        'step == stepSize * length(LC_array)', 'step >= 0',
+        'implies(length(LC_array) >= 1, stepSize * (length(LC_array) - 1) <= length(sequence) - windowSize)',
+        'forall(lambda k: And(0 <= LC_array[k], LC_array[k] * minv(toreal(length(alphabet)) ** wordSize, toreal(windowSize - 1 + wordSize)) <= maxv(windowSize - wordSize, 0)), 0, length(LC_array))'],
+        variant='(length(sequence) - windowSize - step + 1,)'),
+    1: dict(index='i', types={'ngrams': 'aset', 'ngram': 'str', 'position': 'int'}, invariant=['length(ngrams) <= i', 'length(ngrams) >= 0']),
+}
+
+# ---- wrappers: reduce -> complexity -> indexed vector
+_POS = ['length(result[0]) == n_windows(length(sequence), windowSize, stepSize)', 'result[0][0] >= 1',
+        'result[0][length(result[0]) - 1] <= length(sequence)',
+        'forall(lambda i: result[0][i] < result[0][i + 1], 0, length(result[0]) - 1)',
+        'length(result[1]) == n_windows(length(sequence), windowSize, stepSize)']
+_RED = ['length(local("reduced_sequence")) == length(sequence)',
+        'forall(lambda j: local("reduced_sequence")[j] == red1(sequence[j], int(alphabetSize)), 0, length(sequence))']
+_WREQ = ['windowSize >= 1', 'windowSize <= length(sequence)', 'stepSize >= 1', 'forall(lambda j: is_aa(sequence[j]), 0, length(sequence))']
+_WPAR = {'sequence': aa_seq, 'alphabetSize': ('const', 20), 'userAlphabet': (lambda it, case: {}), 'windowSize': 'int', 'stepSize': 'int'}
+_WCASES = [dict(params={'alphabetSize': ('const', k)}) for k in (2, 5, 20)]
+_GH = {'reduced_sequence': 'str', 'alphabet': 'list[char]'}
+
+CONTRACT[CX + 'get_WF_complexity'] = dict(
+    self=mk_cx, params=dict(_WPAR), cases=_WCASES, requires=_WREQ, raises=[], modifies=[], returns='rows:int,real', ghost_locals=_GH,
+    ensures=_POS + _RED + ['forall(lambda k: result[1][k] == wf_spec(local("reduced_sequence"), local("alphabet"), k * stepSize, windowSize), 0, length(result[1]))'])
+CONTRACT[CX + 'get_LZW_complexity'] = dict(
+    self=mk_cx, params=dict(_WPAR), cases=_WCASES, requires=_WREQ, raises=[], modifies=[], returns='rows:int,real', ghost_locals=_GH,
+    ensures=_POS + ['forall(lambda k: And(0 <= result[1][k], result[1][k] <= 1), 0, length(result[1]))'])
+CONTRACT[CX + 'get_LC_complexity'] = dict(
+    self=mk_cx, params=dict(_WPAR, wordSize=('const', 3)), cases=[dict(params={'alphabetSize': ('const', k), 'wordSize': ('const', ws)}) for k, ws in ((2, 3), (20, 1), (5, 6))],
+    requires=_WREQ, raises=[], modifies=[], returns='rows:int,real', ghost_locals=_GH,
+    ensures=_POS + ['forall(lambda k: 0 <= result[1][k], 0, length(result[1]))'])
+
+# Sequence level: window check, then the complexity object
+_SREQ = ['windowSize >= 1', 'stepSize >= 1', 'forall(lambda j: is_aa(self.seq[j]), 0, self.len)']
+_SPAR = {'alphabetSize': ('const', 20), 'userAlphabet': (lambda it, case: {}), 'windowSize': 'int', 'stepSize': 'int'}
+_SPOS = [e.replace('length(sequence)', 'self.len') for e in _POS]
+for _nm, _extra in (('WF', []), ('LZW', ['forall(lambda k: And(0 <= result[1][k], result[1][k] <= 1), 0, length(result[1]))']),
+                    ('LC', ['forall(lambda k: 0 <= result[1][k], 0, length(result[1]))'])):
+    CONTRACT[_KS + 'get_linear_%s_complexity' % _nm] = dict(
+        self=mk_sequence(), params=dict(_SPAR, **({'wordSize': ('const', 3)} if _nm == 'LC' else {})), cases=[dict(params={'alphabetSize': ('const', k)}) for k in (2, 20)],
+        requires=_SREQ, raises=[('SequenceException', 'windowSize > self.len')], modifies=[], returns='rows:int,real', ensures=_SPOS + _extra)
+
+# API level: type dispatch (case-insensitive), unknown types rejected
+_APAR = {'complexityType': ('const', 'WF'), 'alphabetSize': ('const', 20), 'userAlphabet': (lambda it, case: {}), 'blobLen': 'int', 'stepSize': 'int', 'wordSize': ('const', 3)}
+_APOS = [e.replace('length(sequence)', 'self.SeqObj.len').replace('windowSize', 'blobLen') for e in _POS]
+CONTRACT[_SP + 'get_linear_complexity'] = dict(
+    self=mk_seqparams(), params=dict(_APAR),
+    cases=[dict(params={'complexityType': ('const', t), 'alphabetSize': ('const', k)}) for t, k in (('WF', 20), ('wf', 2), ('LC', 20), ('lc', 2), ('LZW', 2), ('Lzw', 20))],
+    requires=['blobLen >= 1', 'stepSize >= 1', 'forall(lambda j: is_aa(self.SeqObj.seq[j]), 0, self.SeqObj.len)'],
+    raises=[('SequenceException', 'blobLen > self.SeqObj.len')], modifies=[], returns='rows:int,real', ensures=_APOS)
+CONTRACT[_SP + 'get_linear_complexity#badtype'] = dict(
+    self=mk_seqparams(), params=dict(_APAR),
+    cases=[dict(params={'complexityType': ('const', t)}) for t in ('XX', 'wf2', '', 'RHP', 5, None)],
+    requires=['blobLen >= 1', 'stepSize >= 1'], raises=[('SequenceComplexityException', 'True')], modifies=[], ensures=[])
